@@ -262,11 +262,16 @@ def c09(run):
     from rules import r_relonce
     P = run.prog('rel')
     r_relonce.run(run, P)
+    from rules import r_cmpbound
+    n = r_cmpbound.run(run, P, units=('coap_block.c',))
+    run.require(n >= 15, 'R-CMP-BOUND: fewer than 15 key comparisons found in coap_block.c')
     run.min_instances('R-RELEASE-ONCE', 5)
     run.assumptions = ASSUME_COMMON + ["body integrity, tiling, at-most-once delivery, token hiding and size fitting (arithmetic over runtime lengths and schedules) are NOT decided",
                                        "paths on which taking the global lock fails carry no obligations"]
     return run.finish(
-        "One clause of C09 is decided: 'the sender's release callback runs exactly once'. For every function taking a release_func parameter, on "
+        "Two clauses of C09 are decided. (1) transfers are told apart by their full keys: every byte comparison of a token, Request-Tag, query or path in "
+        "coap_block.c is reached only with the compared length known to be within (for equality look-ups: equal to) the length of both operands, so a "
+        "look-up cannot match a state whose key differs in length or was compared over the wrong length (R-CMP-BOUND). (2) 'the sender's release callback runs exactly once'. For every function taking a release_func parameter, on "
         "every path with release_func not known NULL the callback is called exactly once, handed to a callee with the same obligation, or stored "
         "into an lg_xmit that is linked into session->lg_xmit or deleted; coap_block_delete_lg_xmit calls it exactly once (R-RELEASE-ONCE).")
 
